@@ -259,6 +259,10 @@ pub enum Op {
     /// compaction step makes room (store subject only).
     FlushStalled,
     Compact,
+    /// One compaction-loop iteration that fails: the scratch directory for compaction outputs is
+    /// moved away for its duration (a transient fault; the loop returns the error, as it would
+    /// to whoever restarts it).  The store must go on working afterwards.
+    CompactFail,
     CompactAll,
     Reopen,
     Verify,
@@ -281,6 +285,7 @@ impl Op {
             Op::Flush => "F".into(),
             Op::FlushStalled => "F!".into(),
             Op::Compact => "C".into(),
+            Op::CompactFail => "C!".into(),
             Op::CompactAll => "C*".into(),
             Op::Reopen => "R".into(),
             Op::Verify => "V".into(),
@@ -299,6 +304,7 @@ impl Op {
             "F" => Op::Flush,
             "F!" => Op::FlushStalled,
             "C" => Op::Compact,
+            "C!" => Op::CompactFail,
             "C*" => Op::CompactAll,
             "R" => Op::Reopen,
             "V" => Op::Verify,
@@ -843,7 +849,7 @@ impl Store {
         let step = self.step;
         if self.is_bare_tree() {
             match op {
-                Op::Ingest(_) | Op::IngestStalled(_) | Op::Compact | Op::CompactAll | Op::Reopen | Op::Verify | Op::Scan(_) | Op::Walk(..) => {}
+                Op::Ingest(_) | Op::IngestStalled(_) | Op::Compact | Op::CompactFail | Op::CompactAll | Op::Reopen | Op::Verify | Op::Scan(_) | Op::Walk(..) => {}
                 _ => return StepResult::Disabled,
             }
         } else if matches!(op, Op::Ingest(_) | Op::IngestStalled(_)) {
@@ -855,6 +861,28 @@ impl Store {
                 Op::Compact | Op::CompactAll | Op::Verify | Op::Scan(_) | Op::Walk(..) => {}
                 _ => return StepResult::Disabled,
             }
+        }
+        if *op == Op::CompactFail {
+            let scratch_dir = lsmtk::COMPACTION_ROOT(&self.dir);
+            let aside = self.dir.with_extension("compaction-aside");
+            if std::fs::rename(&scratch_dir, &aside).is_err() {
+                return StepResult::Disabled;
+            }
+            let r = self.compact_step();
+            let _ = std::fs::remove_dir_all(&scratch_dir);
+            let back = std::fs::rename(&aside, &scratch_dir);
+            return match (r, back) {
+                (_, Err(e)) => StepResult::Err(format!("harness could not restore the compaction directory: {e}")),
+                // nothing was selectable
+                (Ok(false), _) => StepResult::Noop,
+                // a trivial move needs no scratch directory: an ordinary step
+                (Ok(true), _) => {
+                    self.n_compact += 1;
+                    StepResult::Ok
+                }
+                // the expected failure, surfaced to the caller of the loop
+                (Err(_), _) => StepResult::Ok,
+            };
         }
         // A helper that is never woken cannot be freed, nor can the subject it borrows (megabytes
         // each).  After 40 such witnesses in one process the defect is established; further
@@ -1009,7 +1037,7 @@ impl Store {
         let kvs = || kvs_opt.expect("this step needs a KeyValueStore");
         let mut wakes_before = 0;
         match op {
-            Op::Ingest(_) | Op::IngestStalled(_) | Op::FlushStalled => StepResult::Disabled,
+            Op::Ingest(_) | Op::IngestStalled(_) | Op::FlushStalled | Op::CompactFail => StepResult::Disabled,
             Op::Put(k) | Op::PutBig(k) | Op::PutHuge(k) => {
                 let v = match op {
                     Op::PutBig(_) => big_value(step, 1536),
